@@ -125,6 +125,28 @@ Definition ser_matrix (explode : bool) (name : string) (v : value) : string :=
   | _, _ => ";" ++ name ++ "=" ++ body comma false v
   end.
 
+(** remove a prefix *)
+Fixpoint strip_prefix (p s : string) : option string :=
+  match p, s with
+  | EmptyString, _ => Some s
+  | String a p', String b s' => if Ascii.eqb a b then strip_prefix p' s' else None
+  | _, _ => None
+  end.
+
+Definition parse_matrix (explode : bool) (name : string) (sh : shape) (s : string) : option value :=
+  match s with
+  | String ";" r =>
+      match sh, explode with
+      | SArr, true => option_map VArr (traverse (strip_prefix (name ++ "=")) (split_on semi r))
+      | SObj, true => option_map VObj (traverse (split_once "=") (split_on semi r))
+      | _, _ => match strip_prefix (name ++ "=") r with
+                | Some b => parse_body comma false sh b
+                | None => None
+                end
+      end
+  | _ => None
+  end.
+
 (** * The table: query positions (decoded pairs, in order) *)
 Definition ser_query (st : style) (explode : bool) (name : string) (v : value) : list (string * string) :=
   match st, v with
